@@ -29,7 +29,7 @@ CSpec == CInit /\ [][CNext]_vars
 
 Spaced == [Inline EXCEPT !.obcol = 1, !.aem = 1]
 
-Dump == PrintT(ToJson([k |-> "conv", w |-> Print(v, Spaced), v |-> v, T |-> T, err |-> Convert(v, T, 0)]))
+Dump == PrintT(ToJson([k |-> "conv", w |-> Render(v, Spaced), v |-> v, T |-> T, err |-> Convert(v, T, 0)]))
 
 \* an error offset always designates a fragment of the document, and that fragment is a value
 ErrInRange == LET r == Convert(v, T, 0) IN
